@@ -49,13 +49,12 @@ impl<T> Validator<T> {
     pub fn get_module_and_name(&self) -> (&str, &str) {
         let mut split = self.title.split('.');
 
-        let known_module_name = split
-            .next()
-            .expect("validator's name must have two dot-separated components.");
+        // A title normally reads `module.validator.handler`. Blueprints are also loaded from
+        // files written by hand or by other tools, so a title with fewer components designates
+        // a validator without a name rather than crashing the lookup.
+        let known_module_name = split.next().unwrap_or_default();
 
-        let known_validator_name = split
-            .next()
-            .expect("validator's name must have two dot-separated components.");
+        let known_validator_name = split.next().unwrap_or_default();
 
         (known_module_name, known_validator_name)
     }
